@@ -93,7 +93,8 @@ def _val_to_py(model, ev, depth=0):
         except NotConcrete:
             return []
     if tag == "vdict":
-        pairs, default = _array_pairs(model, a)
+        from .core import DArr
+        pairs, default = _array_pairs(model, DArr(a))
         out = {}
         for k, v in pairs:
             if not z3.is_string_value(k):
@@ -241,9 +242,15 @@ def run_harness(fn, name=None, cfg=None, solver_timeout_ms=10000, max_paths=2000
     """Explore every path of harness `fn` symbolically; returns HarnessResult."""
     name = name or fn.__name__
     cfg = cfg or default_config()
+    from . import contracts as _contracts
+    cfg.contracts = {}
+    for q in getattr(fn, "use_contracts", ()):
+        if q not in _contracts.REGISTRY:
+            raise KeyError("unknown contract %s" % q)
+        cfg.contracts[q] = _contracts.REGISTRY[q]
     res = HarnessResult(name)
     t00 = time.time()
-    ctx = Ctx(timeout_ms=min(solver_timeout_ms, 3000))
+    ctx = Ctx(timeout_ms=int(os.environ.get('PYVC_FEAS_MS', '20')))
     ctx.max_paths = max_paths
 
     def on_check(label, goal):
@@ -269,7 +276,27 @@ def run_harness(fn, name=None, cfg=None, solver_timeout_ms=10000, max_paths=2000
                     ob.inputs = {"__error__": repr(e)}
             else:
                 ob.status, ob.solver = "unknown", "z3:" + s.reason_unknown()
-                if use_cvc5:
+                # second attempt: model-based quantifier instantiation (finds counter-models / proofs
+                # the E-matching-only configuration cannot)
+                try:
+                    s2 = z3.SimpleSolver()
+                    s2.set("timeout", solver_timeout_ms)
+                    s2.set("smt.mbqi", True)
+                    for f in ctx.pc:
+                        s2.add(f)
+                    s2.add(z3.Not(goal))
+                    r2 = s2.check()
+                    if r2 == z3.unsat:
+                        ob.status, ob.solver = "proved", "z3-mbqi"
+                    elif r2 == z3.sat:
+                        ob.status, ob.solver = "refuted", "z3-mbqi"
+                        try:
+                            ob.inputs = extract_inputs(s2.model(), ctx.inputs)
+                        except Exception as e:  # noqa
+                            ob.inputs = {"__error__": repr(e)}
+                except Exception:
+                    pass
+                if ob.status == "unknown" and use_cvc5:
                     try:
                         txt = s.to_smt2()
                         r2 = cvc5_check(txt, solver_timeout_ms / 1000.0)
@@ -298,7 +325,7 @@ def run_harness(fn, name=None, cfg=None, solver_timeout_ms=10000, max_paths=2000
         try:
             interp.call(fn, [], {})
             # vacuity guard: the completed path must be satisfiable (or at least not refutable)
-            ctx.solver.set("timeout", 3000)
+            ctx.solver.set("timeout", 250)
             fr = ctx.solver.check()
             if fr == z3.unsat:
                 res.killed += 1
@@ -324,6 +351,8 @@ def run_harness(fn, name=None, cfg=None, solver_timeout_ms=10000, max_paths=2000
         except Exception:
             res.errors.append(traceback.format_exc(limit=12))
         res.covers.update(ctx.covers)
+        if os.environ.get("PYVC_TRACE"):
+            print("PATH done: trail=%s pc=%d checks=%d paths=%d killed=%d errs=%d unsup=%d" % (ctx.trail, len(ctx.pc), len(ctx.checks), res.paths, res.killed, len(res.errors), len(res.unsupported)), flush=True)
     res.axioms = set(ctx.axiom_log)
     res.stats = dict(ctx.stats)
     res.wall_s = time.time() - t00
